@@ -36,6 +36,11 @@ def to_impl(entries, P):
                 out.append(cls(v))
             else:
                 out.append(cls(v, np.array(e['m'], dtype=bool).reshape(e['shape'])))
+        elif k == 'bad':
+            w = e['what']
+            out.append({'float': 1.5, 'str': 'a', 'farr': np.array([0.5, 1.0]),
+                        'fobj': P.Scalar(1.0), 'fobjarr': P.Scalar(np.array([0., 1.])),
+                        'fslice': slice(0.5, None, None)}[w])
         else:
             raise ValueError(k)
     if len(out) == 1 and not e.get('tuple1'):
@@ -110,9 +115,32 @@ def gen_entry(rng, kind, axis_len, shape_rest):
     raise ValueError(kind)
 
 
+def gen_scalar_index(rng):
+    """Index for a shapeless object: mostly the accepted kinds."""
+    ents = []
+    nbool = 0
+    for _ in range(rng.randrange(0, 4)):
+        k = rng.choice(['bool', 'none', 'none', 'ell', 'slice', 'int', 'iarr'])
+        if k == 'bool' and nbool and rng.random() < 0.85:
+            k = 'none'
+        if k in ('int', 'iarr') and rng.random() < 0.7:
+            k = 'none'
+        if k == 'ell' and any(e['k'] == 'ell' for e in ents) and rng.random() < 0.85:
+            k = 'none'
+        if k == 'slice':
+            e = {'k': 'slice', 'a': None, 'b': None if rng.random() < 0.85 else 1, 'c': None}
+        else:
+            e = gen_entry(rng, k, 1, [1])
+        nbool += k == 'bool'
+        ents.append(e)
+    return ents
+
+
 def gen_index(rng, shape, max_extra=2, kinds=None):
     """A structured, mostly valid index tuple for an object of leading shape `shape`."""
     rank = len(shape)
+    if rank == 0:
+        return gen_scalar_index(rng)
     kinds = kinds or ['int', 'slice', 'slice', 'none', 'ell', 'bool', 'iarr', 'iarr', 'barr', 'vec']
     nent = rng.randrange(0, rank + max_extra + 1)
     ents = []
@@ -138,3 +166,276 @@ def gen_index(rng, shape, max_extra=2, kinds=None):
         elif k != 'none':
             ax += 1
     return ents
+
+
+def gen_bad_index(rng, shape):
+    """The malformed stream: a valid-looking index made invalid in one way."""
+    ents = gen_index(rng, shape, kinds=['int', 'slice', 'none', 'iarr', 'barr', 'bool'])
+    how = rng.choice(['bad', 'bad', 'two_ell', 'too_many', 'step0', 'fslice', 'barr_len', 'nobroadcast'])
+    rank = len(shape)
+    if how == 'bad':
+        e = {'k': 'bad', 'what': rng.choice(['float', 'str', 'farr', 'fobj', 'fobjarr'])}
+        ents.insert(rng.randrange(len(ents) + 1), e)
+    elif how == 'two_ell':
+        ents = [e for e in ents if e['k'] != 'ell']
+        for _ in range(2):
+            ents.insert(rng.randrange(len(ents) + 1), {'k': 'ell'})
+    elif how == 'too_many':
+        ents = [e for e in ents if e['k'] != 'ell']
+        ents += [gen_entry(rng, rng.choice(['int', 'slice']), 1, [1]) for _ in range(rank + 1)]
+    elif how == 'step0':
+        ents.insert(rng.randrange(len(ents) + 1), {'k': 'slice', 'a': None, 'b': None, 'c': 0})
+    elif how == 'fslice':
+        ents.insert(rng.randrange(len(ents) + 1), {'k': 'bad', 'what': 'fslice'})
+    elif how == 'barr_len':
+        L = (shape[0] if rank else 1) + 1
+        ents = [{'k': 'barr', 'shape': [L], 'v': [True] * L, 'm': None, 'obj': rng.random() < 0.5}] + ents[1:]
+    else:
+        ents = [{'k': 'iarr', 'shape': [2], 'v': [0, 0], 'm': None, 'obj': rng.random() < 0.5},
+                {'k': 'iarr', 'shape': [3], 'v': [0, 0, 0], 'm': None, 'obj': rng.random() < 0.5}] + ents[2:]
+    return ents
+
+
+def expanded_kinds(entries):
+    """(kind, record) per entry after Pair/Vector entries are split, as the reference does."""
+    from .ref_index import expand
+    return expand(entries)
+
+
+def features(shape, entries):
+    """Structural facts about an index used in failure signatures (regions of the
+    index space, not outcomes): which entry kinds occur, whether an integer-like entry
+    meets a zero-length axis, whether only an integer is separated from the array
+    entries, whether the index is of the 'shapeless' form."""
+    shape = list(shape)
+    rank = len(shape)
+    ents = expanded_kinds(entries)
+
+    def consumes(e):
+        if e['k'] in ('none', 'ell'):
+            return 0
+        if e['k'] == 'barr':
+            return len(e['shape'])
+        return 1
+    used = sum(consumes(e) for e in ents)
+    fill = max(rank - used, 0)
+    ax = 0
+    zero_hit = False
+    outloc = 0                 # number of result axes produced so far
+    first_arr_loc = None
+    seq = []                   # 'A' array, 'I' int, 'S' separator (anything producing/standing for axes)
+    for e in ents:
+        k = e['k']
+        L = shape[ax] if ax < rank else None
+        if k == 'ell':
+            ax += fill
+            outloc += fill
+            seq.append('S')
+        elif k == 'none':
+            outloc += 1
+            seq.append('S')
+        elif k == 'slice':
+            ax += 1
+            outloc += 1
+            seq.append('S')
+        elif k == 'bool':
+            if e['m'] and L == 0:
+                zero_hit = True
+            ax += 1
+            outloc += 1
+            seq.append('S')
+        elif k == 'int':
+            if L == 0:
+                zero_hit = True
+            ax += 1
+            seq.append('I')
+        elif k == 'iarr':
+            if L == 0:
+                zero_hit = True
+            if first_arr_loc is None:
+                first_arr_loc = outloc
+            ax += 1
+            seq.append('A')
+        elif k == 'barr':
+            if first_arr_loc is None:
+                first_arr_loc = outloc
+            ax += len(e['shape'])
+            seq.append('A')
+        else:
+            seq.append('S')
+    int_sep = False
+    if 'A' in seq:
+        a0, a1 = seq.index('A'), len(seq) - 1 - seq[::-1].index('A')
+        arrays_adjacent = 'S' not in seq[a0:a1 + 1]
+        ai = [i for i, c in enumerate(seq) if c in 'AI']
+        group_separated = 'S' in seq[ai[0]:ai[-1] + 1]
+        int_sep = bool(arrays_adjacent and group_separated and first_arr_loc)
+    shapeless_form = rank > 0 and all(
+        e['k'] in ('none', 'ell') or (e['k'] == 'bool' and e['v'] and not e['m'])
+        or (e['k'] == 'slice' and e['a'] is None and e['b'] is None and e['c'] is None)
+        for e in ents) and sum(e['k'] == 'bool' for e in ents) <= 1
+    bad_slice = any((e['k'] == 'slice' and e['c'] == 0) or (e['k'] == 'bad' and e['what'] == 'fslice')
+                    for e in entries)
+    from .ref_index import ref_scalar
+    return {'kinds': sorted(set(e['k'] for e in entries)), 'bad_slice': bad_slice,
+            'scalar_index_ok': ref_scalar(entries) != ('err',),
+            'n_arr': seq.count('A'),
+            'zero_axis_hit': zero_hit,
+            'int_separated_from_arrays': int_sep,
+            'shapeless_form': shapeless_form,
+            'masked_entry': any(bool(e.get('m')) and (e['m'] is True or any(e['m'])) for e in entries
+                                if e['k'] in ('int', 'bool', 'iarr', 'barr', 'vec'))}
+
+
+# ---------------------------------------------------------------------------
+# objects (targets of indexing), shared by the C09 and C10 checks
+# ---------------------------------------------------------------------------
+CLASSES = [('Scalar', ()), ('Scalar', ()), ('Pair', (2,)), ('Vector', (3,)), ('Vector3', (3,)),
+           ('Matrix', (3, 3)), ('Matrix', (2, 2)), ('Quaternion', (4,)), ('Boolean', ())]
+LEAD_SHAPES = [(), (1,), (2,), (3,), (4,), (0,), (2, 3), (3, 2), (1, 3), (3, 1), (2, 0), (0, 3),
+               (2, 2, 2), (3, 2, 2), (2, 1, 3), (3, 0, 2), (2, 2, 2, 2), (2, 3, 1, 2), (3, 4), (4, 4)]
+DERIV_KEYS = [('t', ()), ('x', (2,)), ('u', ())]
+
+
+def gen_mask(rng, shape, rep=None):
+    n = int(np.prod(shape))
+    rep = rep or rng.choice(['F', 'T', 'arr', 'arr'])
+    if rep == 'F':
+        return 'F', [False] * n
+    if rep == 'T':
+        return 'T', [True] * n
+    if not shape:
+        b = rng.random() < 0.5
+        return ('T' if b else 'F'), [b]
+    return 'arr', [rng.random() < 0.3 for _ in range(n)]
+
+
+def gen_object(rng, shape, classes=None, base=0, nderiv=None, isint=None):
+    """An identifier-tagged object record: value of element e, item component j is
+    base + e*isize + j; derivative number k uses base + 10000*(k+1) + its own flat index."""
+    cls, item = rng.choice(classes or CLASSES)
+    mrep, mask = gen_mask(rng, shape)
+    d = {'cls': cls, 'item': list(item), 'shape': list(shape), 'mrep': mrep, 'mask': mask,
+         'base': base, 'int': (rng.random() < 0.4) if isint is None else isint, 'derivs': {}}
+    if cls != 'Boolean':
+        if nderiv is None:
+            nderiv = rng.choice([0, 0, 1, 2])
+        keys = rng.sample(DERIV_KEYS, nderiv)
+        for key, denom in sorted(keys):
+            mr, mk = gen_mask(rng, shape, rng.choice(['F', 'F', 'arr', 'same']) if shape else None) \
+                if rng.random() < 2 else None
+            d['derivs'][key] = {'denom': list(denom), 'mrep': mr, 'mask': mk}
+        for key in d['derivs']:
+            if d['derivs'][key]['mrep'] == 'same':
+                d['derivs'][key]['mrep'], d['derivs'][key]['mask'] = mrep, list(mask)
+        if d['derivs']:
+            d['int'] = False if cls != 'Scalar' else d['int']
+    return d
+
+
+def _mask_obj(rep, flat, shape):
+    if rep == 'F':
+        return False
+    if rep == 'T':
+        return True
+    return np.array(flat, dtype=bool).reshape(shape)
+
+
+def build_object(d, P):
+    shape, item = tuple(d['shape']), tuple(d['item'])
+    n, isz = int(np.prod(shape)), int(np.prod(item))
+    cls = getattr(P, d['cls'])
+    if d['cls'] == 'Boolean':
+        vals = (np.arange(n) % 2 == (d['base'] % 2)).reshape(shape)
+        return cls(vals if shape else bool(vals), _mask_obj(d['mrep'], d['mask'], shape))
+    dt = int if (d['int'] and d['cls'] in ('Scalar', 'Pair', 'Vector')) else float
+    vals = (d['base'] + np.arange(n * isz)).astype(dt).reshape(shape + item)
+    obj = cls(vals if (shape + item) else vals.item(), _mask_obj(d['mrep'], d['mask'], shape))
+    for k, key in enumerate(sorted(d['derivs'])):
+        dd = d['derivs'][key]
+        denom = tuple(dd['denom'])
+        dsz = int(np.prod(denom))
+        dv = (d['base'] + 10000 * (DKEY_NUM[key] + 1) + np.arange(n * isz * dsz)).astype(float)
+        dv = dv.reshape(shape + item + denom)
+        dobj = cls(dv if dv.shape else dv.item(), _mask_obj(dd['mrep'], dd['mask'], shape),
+                   drank=len(denom))
+        obj.insert_deriv(key, dobj)
+    return obj
+
+
+DKEY_NUM = {'t': 0, 'u': 1, 'x': 2}
+
+
+def observe_plain(q):
+    """(shape, expanded mask as list, per element list of item components)"""
+    shape = tuple(q.shape)
+    n = int(np.prod(shape))
+    m = np.broadcast_to(np.asarray(q.mask), shape).ravel()
+    v = np.broadcast_to(np.asarray(q.values), shape + tuple(q.item)) if n else np.zeros((0, 1))
+    v = np.asarray(v).reshape((n, -1)) if n else np.zeros((0, 1))
+    return (list(shape), [bool(x) for x in m], [[_num(x) for x in row] for row in v])
+
+
+def _num(x):
+    if isinstance(x, (bool, np.bool_)):
+        return int(x)
+    f = float(x)
+    return int(f) if f == int(f) else f
+
+
+def observe(q):
+    return {'main': observe_plain(q), 'derivs': {k: observe_plain(d) for k, d in sorted(q.derivs.items())}}
+
+
+# ---------------------------------------------------------------------------
+# Coq printers (shared by both checks)
+# ---------------------------------------------------------------------------
+def coq_entries(entries):
+    from .lib import cbool, cnat, cZ, clist, cshape, copt
+    out = []
+    for e in entries:
+        k = e['k']
+        if k == 'int':
+            out.append('EInt %s %s' % (cZ(e['v']), cbool(e['m'])))
+        elif k == 'slice':
+            out.append('ESlice %s %s %s' % tuple(copt(cZ(x), 'Z') if x is not None else copt(None, 'Z')
+                                                 for x in (e['a'], e['b'], e['c'])))
+        elif k == 'none':
+            out.append('ENone')
+        elif k == 'ell':
+            out.append('EEll')
+        elif k == 'bool':
+            out.append('EBool %s %s' % (cbool(e['v']), cbool(e['m'])))
+        elif k == 'iarr':
+            out.append('EIArr %s %s %s' % (cshape(e['shape']), clist([cZ(x) for x in e['v']], 'Z'),
+                                           clist([cbool(x) for x in (e['m'] or [])], 'bool')))
+        elif k == 'barr':
+            out.append('EBArr %s %s %s' % (cshape(e['shape']), clist([cbool(x) for x in e['v']], 'bool'),
+                                           clist([cbool(x) for x in (e['m'] or [])], 'bool')))
+        elif k == 'vec':
+            out.append('EVec %s %s %s %s' % (cnat(e['n']), cshape(e['shape']),
+                                             clist([cZ(x) for x in e['v']], 'Z'),
+                                             clist([cbool(x) for x in (e['m'] or [])], 'bool')))
+        else:
+            out.append('EBad')
+    return clist(out, 'entry')
+
+
+def coq_plain(obs_plain, rep):
+    """plain object from an observation (shape, mask, values) and its mask representation"""
+    from .lib import cbool, cZ, clist, cshape
+    shape, mask, vals = obs_plain
+    if rep in ('F', 'T'):
+        m = 'LS %s' % cbool(rep == 'T')
+    else:
+        m = 'LA %s' % clist([cbool(x) for x in mask], 'bool')
+    return '(mkplL %s %s (%s))' % (cshape(shape),
+                                   clist([clist([cZ(x) for x in row], 'Z') for row in vals], '(list Z)'), m)
+
+
+def coq_eobs(obs_plain):
+    """observed plain object: masked elements carry no value"""
+    from .lib import cZ, clist, cshape, copt
+    shape, mask, vals = obs_plain
+    els = [copt(None, '(list Z)') if m else copt(clist([cZ(x) for x in row], 'Z')) for m, row in zip(mask, vals)]
+    return '(%s, %s)' % (cshape(shape), clist(els, '(option (list Z))'))
